@@ -1,7 +1,11 @@
 import MpsVerif.Model.Buffer
-import MpsVerif.Core.Validate
+import MpsVerif.Core.ValidateFast
 import MpsVerif.Drv.Util
 /-! Trace-validation driver for the `Buffer` model (`drv buffer`). -/
+namespace Buffer
+deriving instance Hashable for SrcEnd, QItem, WPc, CPc, State
+end Buffer
+
 namespace Buffer.Drv
 open Core.Val
 
@@ -72,7 +76,7 @@ partial def loop (h : IO.FS.Stream) (st : St) : IO Unit := do
   match ws with
   | "case" :: id :: rest =>
     let c := mkCfg (Drv.kvs rest)
-    loop h { id := id, cfg := c, fuel := c.maxsize + 8, ss := [init], k := 0, dead := false }
+    loop h { id := id, cfg := c, fuel := 4 * c.maxsize + 40, ss := [init], k := 0, dead := false }
   | "e" :: name :: rest =>
     if st.dead then loop h st else
     let idx := rest.head?.bind String.toNat?
@@ -81,15 +85,15 @@ partial def loop (h : IO.FS.Stream) (st : St) : IO Unit := do
       IO.println s!"REJECT {st.id} {st.k} bad-event {name}"
       loop h { st with dead := true }
     | some a =>
-      let ss' := vstep (sys st.cfg) st.fuel Ev.act keep st.ss { act := a, idx := idx }
+      let ss' := vstepW (sys st.cfg) st.fuel Ev.act keep st.ss { act := a, idx := idx }
       if ss'.isEmpty then
-        IO.println s!"REJECT {st.id} {st.k} event `{name} {rest}` not enabled in any of {(tauClose (sys st.cfg) st.fuel st.ss).length} compatible model states"
+        IO.println s!"REJECT {st.id} {st.k} event `{name} {rest}` not enabled in any of {(tauCloseW (sys st.cfg) st.fuel st.ss).length} compatible model states"
         loop h { st with dead := true }
       else loop h { st with ss := ss', k := st.k + 1, maxStates := max st.maxStates ss'.length }
   | "end" :: rest =>
     if st.dead then loop h st else
     let kv := Drv.kvs rest
-    let fin := tauClose (sys st.cfg) st.fuel st.ss
+    let fin := tauCloseW (sys st.cfg) st.fuel st.ss
     let wantFinal := Drv.getN kv "final" == 1
     let partialRun := Drv.getN kv "partial" == 1
     let good := fin.filter (fun s => partialRun || (summaryOk kv s && (!wantFinal || decide (Final s))))
